@@ -121,12 +121,18 @@ def annPath (name : Str) : Path := ["metadata", "annotations", String.ofList nam
 def annNames (env : Env) (p : Str) (v1 : Bool) (body : J) (k : Str) : List Str :=
   makeKeys p v1 env.sfx (markKey (isDRS body) k)
 
-def kopfDot : Str := "kopf.".toList
+def knownPrefixBase : Str := "kopf.zalando.org".toList
 def markerName (p : Str) : Str := p ++ "/kopf-managed".toList
 
-/-- `StorageKeyMarkingConvention._store_marker` -/
+/-- the prefixes `_detect_marked_prefixes` recognises without a marker: `kopf.zalando.org` and its
+    sub-domains (`__KNOWN_PREFIXES`) -/
+def knownPrefix (p : Str) : Bool :=
+  p == knownPrefixBase || ('.' :: knownPrefixBase).isSuffixOf p
+
+/-- `StorageKeyMarkingConvention._store_marker` (since ef55390: skipped exactly for the prefixes
+    that are detected without it) -/
 def storeMarker (p : Str) (body patch : J) : Except Err J :=
-  if !p.isEmpty && !(kopfDot.isPrefixOf p) then
+  if !p.isEmpty && !(knownPrefix p) then
     if (resolve? body (annPath (markerName p))).isNone
         && (resolve? patch (annPath (markerName p))).isNone then
       liftD (ensure patch (annPath (markerName p)) (str "yes"))
@@ -267,9 +273,13 @@ def statusTouch (c : StatusCfg) (body patch : J) (value : J) : Except Err J :=
   else if !(pyEq (resolveD body c.touchField) value) then liftD (ensure patch c.touchField value)
   else .ok patch
 
+/-- since dbb523b the touch field is removed from the essence as well -/
 def statusClear (c : StatusCfg) (essence : J) : Except Err J :=
   match liftD (remove essence c.field) with
-  | .ok e => removeEmptyStanzas e
+  | .ok e =>
+    match liftD (remove e c.touchField) with
+    | .ok e2 => removeEmptyStanzas e2
+    | .error err => .error err
   | .error e => .error e
 
 /-! ## Leaves and the Multi / Smart fan-out -/
